@@ -115,7 +115,15 @@ def sequences(rng, pop):
         a = rng.randrange(ext)
         if r < 0.65:
             return [['num', a], None]
-        return [['num', a], ['num', rng.randint(a, ext - 1)]]
+        b = ['num', rng.randint(a, ext - 1)]
+        if rng.random() < 0.2:
+            # a number given as a function call (no braces needed)
+            b = ['call', 'same', [b]]
+            if rng.random() < 0.3:
+                return [['call', 'same', [['num', a]]], b]
+        return [['num', a], b]
+    prog.insert(0, ['routine', 'same', ['sx'], [['return', ['var', 'sx']]],
+                    True])
 
     def rc(h, w):
         rows, cols = rng_spec(h), rng_spec(w)
@@ -145,7 +153,8 @@ def sequences(rng, pop):
         else:
             d = rng.choice(mzs)
             spec = rng_spec(d['zones'], False)
-            if rng.random() < 0.3:
+            if rng.random() < 0.3 and spec[0][0] == 'num' and (
+                    spec[1] is None or spec[1][0] == 'num'):
                 # whole numbers that arrive as floats: a quotient, or the
                 # variable of an interpolating loop
                 spec = [['bin', '/', ['num', 2 * spec[0][1]], ['num', 2]],
